@@ -5,7 +5,35 @@ EXTRACT = "correspondence leg only: Coq extraction (ExtrOcamlBasic, no Extract C
 HARNESSTB = "correspondence leg only: Go harness /verif/harness + verif-tagged hook files in /repo (generators bound what was compared)"
 GEN = "translator tools/gen (Go AST -> coq/Gen/*.v), fails closed on unrecognised source shapes"
 
+MD4NOTE = "strong hash: theorems are parametric in H; the model is executed with a native OCaml MD4 in the driver (the Gallina MD4 of Model/Md4.v is cross-checked against the implementation by component md4)"
+
 PROPS = {
+    "C02": {
+        "components": ["sender", "recv"],
+        "trusted_base": [KERNEL, EXTRACT, HARNESSTB, GEN, MD4NOTE,
+                         "modelled, not verified: reading the source file through the sliding window (fileio.go mapStruct.ptr) is abstracted to slices of the file; Go sort.Slice order among identical blocks is abstracted (references normalised to the least identical block)"],
+        "assumptions": [
+            "sender_exact assumes the checksum set was computed over the basis with block length >= 1 (legal sums) and the explicit no_collision hypothesis on these strings",
+            "harness oracle: independent token application + golang.org/x/crypto/md4 for the trailer",
+        ],
+        "rule": "sender: all (basis,target) pairs over alphabet {01,ff} up to length 5 (quick) / 6 (thorough) x block length 1..3 x strong length {0,2,16}; random small cases over {00,01,7f,80,ff} with block permutations/duplications/remainder reuse; algebraic weak-checksum collisions; structured large files 0.2-3 MiB (identical, edits, unmatched runs longer than the read window, long tails) at generator and foreign block lengths 700..131072. receiver: all token lists of length 0..3 over a 6-token pool x 6 bases x block length 1..3 x right/wrong trailer, plus random valid/invalid/truncated/flipped streams. non-trivial = stream with at least one literal and one reference (sender) / commit or checksum reject (receiver)",
+        "exhaustive": True,
+        "exhaustive_note": "the small-alphabet sender pairs and the receiver token-list pool are enumerated completely; large files are sampled",
+        "label": "full on the model; window reads (mapStruct) covered by correspondence only",
+    },
+    "C03": {
+        "components": ["faults", "recv"],
+        "trusted_base": [KERNEL, EXTRACT, HARNESSTB, GEN, MD4NOTE,
+                         "renameio / os.Root file-system effects are observed, not modelled, in this property (destination content before/after)"],
+        "assumptions": [
+            "the only escape is an exhibited collision of the whole-file sum (no_silent_corruption's right disjunct)",
+            "bit flips that turn a length field into a value above 2^20 are skipped and counted (declared multi-gigabyte sizes are outside the project's guarantees)",
+        ],
+        "rule": "honest sender streams (real sender) for 7 session shapes (whole-file new/over unrelated, pure delta identical/permuted, mixed insert/tail, emptied) [+25 random shapes in thorough]; every single-bit flip at every position of the data segment, every substitution of a block reference by another valid one, token drop/duplicate/swap, literal truncation, basis modified after its sums were sent; real receiver against a real directory; non-trivial = fault detected by checksum or committed",
+        "exhaustive": True,
+        "exhaustive_note": "all single-bit flips of each listed session's data segment are enumerated (minus the counted skips)",
+        "label": "full",
+    },
     "C19": {
         "components": ["acl"],
         "trusted_base": [KERNEL, EXTRACT, HARNESSTB,
